@@ -72,6 +72,33 @@ def check_lossless_rendering(ctx, rule: str) -> int:
                     isinstance(c.func.value.value, str) and ',' in c.func.value.value and c.args):
                 continue
             comp = c.args[0]
+            if isinstance(comp, (ast.Tuple, ast.List)) and comp.elts:
+                # `', '.join((str(name), str(value)))` inside a comprehension over `.items()`: the elements are spelled out
+                q = parent(c)
+                enclosing = None
+                while q is not None and q is not fnode:
+                    if isinstance(q, (ast.ListComp, ast.GeneratorExp)) and any('items()' in norm(g_.iter) for g_ in q.generators):
+                        enclosing = q
+                        break
+                    q = parent(q)
+                if enclosing is None:
+                    continue
+                n += 1
+                key = f'{f.qualname}/parameter-values-rendered-losslessly'
+                where = f'{f.module.rel}:{c.lineno}'
+                oks = [isinstance(e, ast.Name) or (isinstance(e, ast.Call) and dotted_name(e.func) in ('str', 'repr') and len(e.args) == 1
+                                                    and isinstance(e.args[0], ast.Name)) for e in comp.elts]
+                lossy = any(isinstance(x, ast.Call) and dotted_name(x.func) in ('round', 'format', 'np.round') for e in comp.elts for x in ast.walk(e)) or \
+                    any(isinstance(x, ast.FormattedValue) and x.format_spec is not None for e in comp.elts for x in ast.walk(e))
+                if all(oks):
+                    ctx.ok(rule, key, where, norm(comp)[:60])
+                elif lossy:
+                    ctx.bad(rule, key, where,
+                            f'parameter values are written to the input file through `{norm(comp)[:60]}`, which rounds / formats floats: a dictionary '
+                            f'request no longer carries the values given (0.00125 becomes 0.0013) and disagrees with the same inputs written in a file')
+                else:
+                    raise AnalysisError(f'{f.qualname}: value rendering `{norm(comp)[:60]}` not recognised (cannot decide)')
+                continue
             if not isinstance(comp, (ast.ListComp, ast.GeneratorExp)):
                 continue
 
